@@ -473,3 +473,17 @@ func sameLoad(a, b ssa.Value) bool {
 	}
 	return Sig(ua.X) == Sig(ub.X)
 }
+
+// IsSyntheticPanic: the panic was emitted by the SSA builder for the protocol of a
+// range-over-func loop (iterator misuse checks), not written in the source.
+func IsSyntheticPanic(pn *ssa.Panic) bool {
+	if strings.HasPrefix(pn.Block().Comment, "rangefunc") {
+		return true
+	}
+	if mi, ok := pn.X.(*ssa.MakeInterface); ok {
+		if s, isS := ConstString(mi.X); isS && (strings.Contains(s, "iterator call did not preserve panic") || strings.Contains(s, "yield function called after range loop exit")) {
+			return true
+		}
+	}
+	return false
+}
